@@ -13,7 +13,7 @@ LEVEL = "exploration"
 TECHNIQUE = "deviation-bounded exhaustive enumeration of constructor arguments x block sizes x ATA transfer rules; buffer lengths recomputed from the CDB by the independent spec decoder and each command handed to both stand-in transports"
 RULE = ("42 classes x offering tables x argument tuples with at most k deviations (k=1 quick, 2 thorough) x block sizes {1,512,520,4096} for "
         "block commands (products above 2^22 bytes skipped) ; ATA PASS-THROUGH 12/16: full product t_length(4) x byte_block x t_type x t_dir x "
-        "data given/omitted x blocksize {0,512,4096} x extra_tl {None,3} x count/features {0,1,2,max8,(max16)} ; MODE SELECT / PR OUT / EXTENDED COPY "
+        "data given/omitted x blocksize {0,512,4096} x extra_tl {None,3} x count/features {0,1,2,max8,(max16)}, and PROTOCOL 0..15 x t_length x byte_block x t_type x t_dir x data given/omitted x extra_tl ; MODE SELECT / PR OUT / EXTENDED COPY "
         "with parameter dictionaries of several sizes. Every constructed command is executed on an SG_IO and an iSCSI device (stand-ins), which take "
         "len() of both buffers; the iSCSI task direction/length is compared with the same numbers; afterwards the result is decoded (unmarshall) and both buffers must still be the same objects of the same length; 12 data-in facade methods on both transports answered with a well-formed response and 8 truncated / garbage ones (a length field announcing more than was transferred): every command reaching the target and the command handed back satisfy the same relation; two facades with block sizes 512 / 4096 alive at once (3 creation orders), READ/WRITE(10,12,16) on each in turn. Non-trivial = a deviation or a non-default "
         "block size; distinct = distinct (class, table, tuple, blocksize).")
@@ -422,6 +422,15 @@ def run_partition(part, tier, seed):
                 continue
             point = dict(protocal=4, t_length=ata_tl, byte_block=bb, t_dir=td, t_type=tt, off_line=0, fetures=fet, count=cnt, lba=0x123456,
                          command=0x25, blocksize=bsz, _data=give)
+            if xtl is not None:
+                point["extra_tl"] = xtl
+            do([name, st, key, point, None, 0], True)
+        # the PROTOCOL field does not enter the transfer rules: all 16 values x T_LENGTH (this partition) x BYTE_BLOCK x T_TYPE x T_DIR
+        for proto, bb, tt, td, give, xtl in itertools.product(range(16), (0, 1), (0, 1), (0, 1), (False, True), (None, 3)):
+            if proto == 4:
+                continue
+            point = dict(protocal=proto, t_length=ata_tl, byte_block=bb, t_dir=td, t_type=tt, off_line=0, fetures=5, count=2, lba=0x123456,
+                         command=0x25, blocksize=512, _data=give)
             if xtl is not None:
                 point["extra_tl"] = xtl
             do([name, st, key, point, None, 0], True)
